@@ -204,13 +204,17 @@ fn case(r: &mut Rng, res: &mut CaseResult) {
             // frames the client had queued before it saw the close are discarded, not answered)
             victim.send(Cmd::Stop);
             res.obs("crossing_closes", 1);
-            // Let the server's answer to the client's own Close (if any) arrive before the id
-            // is reused: a reply on another channel travels behind it. (Reusing the id while
-            // that answer is outstanding is the separate, known finding D15: see
-            // `crossing_then_reopen`.)
-            if let Err(e) = done(watchers[0].0.call(Cmd::Rpc)) {
-                res.violate("bystander_disturbed", format!("watcher channel {} after a crossing close: {} (closes: {:?})", watchers[0].0.id, e, log));
-                break;
+            // In half of the rounds the id is reused at once, while the server's answer to
+            // the client's own Close may still be on its way (that was defect D15, see
+            // `crossing_then_reopen`); in the other half a reply on another channel, which
+            // travels behind that answer, is awaited first.
+            if r.bool() {
+                if let Err(e) = done(watchers[0].0.call(Cmd::Rpc)) {
+                    res.violate("bystander_disturbed", format!("watcher channel {} after a crossing close: {} (closes: {:?})", watchers[0].0.id, e, log));
+                    break;
+                }
+            } else {
+                res.obs("ids_reused_right_after_a_crossing_close", 1);
             }
             continue;
         }
